@@ -24,6 +24,7 @@ import (
 type HarnessDef struct {
 	Func      string         `json:"func"`
 	Quick     map[string]int `json:"quick"`
+	ThoroughOnly bool        `json:"thorough_only,omitempty"`
 	Thorough  map[string]int `json:"thorough"`
 	NoWitness bool           `json:"no_witness,omitempty"`
 	Reach     []string       `json:"reach,omitempty"` // labels that must be reached by some path
@@ -401,6 +402,9 @@ func doCheck(cfg *Config, id, only string) int {
 		params := hd.Quick
 		if cfg.tier == "thorough" && hd.Thorough != nil {
 			params = hd.Thorough
+		}
+		if cfg.tier != "thorough" && hd.ThoroughOnly {
+			continue // a configuration that only the thorough tier runs
 		}
 		spec := &HarnessSpec{Property: id, Func: hd.Func, Params: params, NoWitness: hd.NoWitness, Reach: hd.Reach}
 		th := time.Now()
